@@ -74,6 +74,24 @@ def _merge_attrpath_sets(target: "AttributeSet", incoming: "AttributeSet") -> No
         target.values.append(item)
 
 
+def _has_line_comment(values: list[Binding | Inherit]) -> bool:
+    """Tell whether a binding (or its value) carries a `#` comment in its trivia."""
+    from nix_manipulator.expressions.comment import Comment, MultilineComment
+
+    for item in values:
+        holders = [item, getattr(item, "value", None)]
+        for holder in holders:
+            for trivia in (getattr(holder, "before", None) or []), (
+                getattr(holder, "after", None) or []
+            ):
+                for entry in trivia:
+                    if isinstance(entry, Comment) and not isinstance(
+                        entry, MultilineComment
+                    ):
+                        return True
+    return False
+
+
 def _merge_attrpath_bindings(
     values: list[Binding | Inherit],
 ) -> list[Binding | Inherit]:
@@ -352,7 +370,8 @@ class AttributeSet(TypedExpression):
                 return apply_trailing_trivia(set_str, self.after, indent=indent)
             return self.add_trivia(f"{prefix}{{ }}", indent=indent, inline=inline)
 
-        if self.multiline:
+        if self.multiline or _has_line_comment(self.values):
+            # (a `#` comment runs to the end of its line: on one line it would swallow the closing brace)
             before_str = format_trivia(self.before, indent=indent)
             render_values = self.attrpath_order if self.attrpath_order else self.values
             bindings_str = "\n".join(
